@@ -8,6 +8,7 @@ from fractions import Fraction
 import core
 import corecheck
 import gen
+import rendermodel
 from common import run_model, qenc, Reader, build_bins
 
 ZERO = Fraction(0)
@@ -207,6 +208,8 @@ def run(res, ctx):
                 if y != year_of(good[k][1]["deltas"][j]["sd"]):
                     res.violation("broken-correspondence", "model year_of_day disagrees with the calendar on day %d" % good[k][1]["deltas"][j]["sd"],
                                   {"theorem_or_projection": "year_of_day"}, found_input=False)
+    # the report renderer inside the model: every cell of both views against Model/Render.v
+    rendermodel.check_pass(res, ctx, rs, to_cents_view)
     # the real binary writing report files (fresh vs previously used output directory)
     import props.c06_cli as c06_cli
     c06_cli.run(res, ctx, rng, st)
